@@ -18,6 +18,75 @@ RUN_PY = 'pytype/tools/analyze_project/pytype_runner.py'
 
 
 def build():
+  return [build_plan(), build_sorted_modules()]
+
+
+def build_sorted_modules():
+  """Second theory: PytypeRunner.yield_sorted_modules (a generator, verified as the builder of the list it yields) --
+  the contract that the first theory assumes for it."""
+  T = Theory('C19')
+  T.append_frame_trigger = True
+  Mod = S.Uninterp('Module')
+  STR = S.STR
+  SeqM = S.Seq(Mod)
+  Group = S.Tup(SeqM, SeqM)
+  Item = S.Tup(Mod, STR, SeqM, STR)
+  MA = S.Tup(Mod, STR)
+  T.sorts.update(Module=Mod)
+  act = z3.Function('module_action', Mod.z3(), STR.z3())
+  T.opaque[(RUN_PY, 'PytypeRunner.get_module_action')] = lambda ex, bound, node: V(STR, act(ex.coerce(bound['module'], Mod).t))
+  B = lambda nm, f: Builtin(nm, f, needs_ex=True)
+  T.symbols['action_of'] = B('action_of', lambda ex, a, k, n: V(STR, act(ex.coerce(a[0], Mod).t)))
+  T.bind_obj(RUN_PY, 'PytypeRunner', collections.OrderedDict(sorted_sources=S.Seq(Group)))
+  T.assumptions += [
+      'second theory (yield_sorted_modules): get_module_action(m) is an opaque pure function of the module that returns one of the three actions '
+      '(its body -- membership in self.filenames, module.kind -- is not under contract); a generator is verified as the builder of the list of the values it yields',
+      'precondition (importlab / deps_from_import_graph, unverified): self.sorted_sources is in dependency order -- every dependency of a group is a module of an EARLIER group',
+  ]
+  acts = "(%s == 'check' or %s == 'infer' or %s == 'generate default')"
+  src = 'self.sorted_sources'
+  pre = [
+      'all(%s for m in every("Module"))' % (acts % (('action_of(m)',) * 3)),
+      # dependency order of the groups
+      'all(all(any(any(%s[h][0][q] == d for q in range(len(%s[h][0]))) for h in range(g)) for d in %s[g][1]) for g in range(len(%s)))' % (src, src, src, src),
+  ]
+  it_ok = lambda r, n: [
+      "all((%s[j][1] == 'check' or %s[j][1] == 'infer' or %s[j][1] == 'generate default') and "
+      "(%s[j][3] == 'single pass' or %s[j][3] == 'first pass' or %s[j][3] == 'second pass') for j in range(%s))" % (r, r, r, r, r, r, n),
+      'all(all(any(%s[i][0] == d for i in range(j)) for d in %s[j][2]) for j in range(%s))' % (r, r, n),
+      "all((%s[j][1] == 'generate default') == (action_of(%s[j][0]) == 'generate default') for j in range(%s))" % (r, r, n),
+  ]
+  seen = lambda r, n, g: 'all(all(any(%s[i][0] == %s[h][0][q] for i in range(%s)) for q in range(len(%s[h][0]))) for h in range(%s))' % (r, src, n, src, g)
+  DEPS_SEEN = 'all(any(yielded[i][0] == d for i in range(%s)) for d in deps)'
+  T.add(Contract(
+      RUN_PY, 'PytypeRunner.yield_sorted_modules', collections.OrderedDict(self=('obj', 'PytypeRunner')),
+      requires=pre,
+      ensures=it_ok('result', 'len(result)') + [
+          # whether a module gets a generated default stub is a property of the module
+          "all(all(implies(result[i][0] == result[j][0], (result[i][1] == 'generate default') == (result[j][1] == 'generate default'))"
+          " for i in range(len(result))) for j in range(len(result)))"],
+      loops={
+          0: Loop(it_ok('yielded', 'len(yielded)') + [seen('yielded', 'len(yielded)', 'i')], index='i', seq='S_'),
+          1: Loop(['len(modules) == k', 'all(modules[p][0] == group[p] and modules[p][1] == action_of(group[p]) for p in range(k))',
+                   'same(yielded, entry(1, yielded))', DEPS_SEEN % 'len(yielded)'], index='k', seq='G_'),
+          2: Loop(it_ok('yielded', 'len(yielded)') + [seen('yielded', 'len(entry(2, yielded))', 'i'),
+                   'len(yielded) == len(entry(2, yielded)) + p2', 'len(second_pass_deps) == p2',
+                   'all(second_pass_deps[p] == modules[p][0] and yielded[len(entry(2, yielded)) + p][0] == modules[p][0] for p in range(p2))',
+                   'all(same(yielded[j], entry(2, yielded)[j]) for j in range(len(entry(2, yielded))))',
+                   'same(deps, entry(2, deps))', DEPS_SEEN % 'len(entry(2, yielded))'], index='p2', seq='M2_'),
+          3: Loop(it_ok('yielded', 'len(yielded)') + [seen('yielded', 'len(yielded)', 'i'),
+                   'len(yielded) >= len(entry(3, yielded))',
+                   'all(same(yielded[j], entry(3, yielded)[j]) for j in range(len(entry(3, yielded))))',
+                   'same(deps, entry(3, deps))', DEPS_SEEN % 'len(entry(3, yielded))'], index='p3', seq='M3_'),
+      },
+      asserts={'for module in group': [DEPS_SEEN % 'len(yielded)'],
+               'deps += tuple(second_pass_deps)': [DEPS_SEEN % 'len(yielded)']},
+      result=S.Seq(Item),
+      ghost={'modules': S.Seq(MA), 'second_pass_deps': SeqM, 'deps': SeqM, 'group': SeqM}))
+  return T
+
+
+def build_plan():
   T = Theory('C19')
   T.append_frame_trigger = True
   Mod = S.Uninterp('Module')
@@ -138,7 +207,7 @@ def build():
                "all(all(implies(result[i][0] == result[j][0], (result[i][1] == 'generate default') == (result[j][1] == 'generate default'))"
                " for i in range(len(result))) for j in range(len(result)))"],
       result=SeqItem, verify=False,
-      note='assumed for now: dependency order of the yielded items (precondition on sorted_sources from importlab); sampled natively'))
+      note='proved in the second theory (build_sorted_modules) under the precondition that sorted_sources is in dependency order (importlab)'))
   k1 = ('all(implies(m in module_to_imports_map, m in module_to_output and module_to_output[m] in plan_O and '
         'all(implies(k in module_to_imports_map[m], module_to_imports_map[m][k] == DEFAULT or '
         'module_to_imports_map[m][k] in plan_anc[module_to_output[m]]) for k in every("Str"))) for m in every("Module"))')
@@ -161,12 +230,17 @@ def build():
   return T
 
 
-SURROUND = ['PytypeRunner.yield_sorted_modules (assumed contract: items are in dependency order), deps_from_import_graph (importlab)',
+SURROUND = ['deps_from_import_graph / importlab (sorted_sources in dependency order: precondition of yield_sorted_modules), get_module_action (opaque)',
             'write_build_statement / write_imports / write_ninja_preamble text rendering, escape_ninja_path (regex substitution)',
             '_module_to_output_path string manipulation', 'imports_map_loader (reader of the .imports files)', 'ninja itself',
             'main.py / config.py (how inputs and options reach PytypeRunner)']
 NATIVE_IN_QUICK = True
 MUTANTS = [
+    dict(name='ysm_second_pass_without_cycle_deps', file=RUN_PY, old="        deps += tuple(second_pass_deps)\n", new="        pass\n", expect=0),   # fewer deps declared: still in dependency order (the plan theory notices missing deps)
+    dict(name='ysm_second_pass_before_first', file=RUN_PY, old="        for module, action in modules:\n          second_pass_deps.append(module)\n", new="        deps += tuple(m for m, _ in modules)\n        for module, action in modules:\n          second_pass_deps.append(module)\n"),
+    dict(name='ysm_check_kept_in_first_pass', file=RUN_PY, old="          if action == Action.CHECK:\n            action = Action.INFER\n", new="", expect=0),
+    dict(name='ysm_generate_default_twice', file=RUN_PY, old="          if action != Action.GENERATE_DEFAULT:\n            yield module, action, deps, Stage.SECOND_PASS\n", new="          yield module, action, deps, Stage.SECOND_PASS\n", expect=0),
+
     dict(name='deps_only_first', file=RUN_PY, old="      deps = tuple(module_to_output[m] for m in deps\n                   if module_to_output[m] != default_output)\n",
          new="      deps = tuple(module_to_output[m] for m in deps[:1]\n                   if module_to_output[m] != default_output)\n"),
     dict(name='imports_map_of_all_modules', file=RUN_PY, old="  for m in deps:\n    if m in module_to_imports_map:\n      imports_map.update(module_to_imports_map[m])\n",
